@@ -81,6 +81,8 @@ func runC12(c *core.Ctx) {
 	c12Validate(c)
 	_ = strings.TrimSpace
 	saltRule(c, "C12.R4")
+	c20R5as(c, "C12.R5")
+	keyTextRule(c, "C12.R6")
 }
 
 func c12Validate(c *core.Ctx) {
@@ -108,5 +110,59 @@ func c12Validate(c *core.Ctx) {
 			g := eng.Guarded(ret, pred)
 			c.Check(g.Guarded && g.Edges > 0, rule, name+":Validate on the path", ret.Pos(), "a key whose embedded signature/contract/master id were altered is refused", "Authorize can succeed without contract.Validate(key)")
 		})
+	}
+}
+
+// keyTextRule: one spelling per key. A ban is stored and looked up by the key *text*
+// (event.Ban(channel.Key)), authority comes from the decrypted bytes; every step between the
+// text a client presents and the cipher must therefore be the identity, otherwise a second
+// text (padded, re-cased, trimmed) decrypts to the same key and walks past the ban:
+// broker.Service.Authorize hands keygen.DecryptKey string(channel.Key) — the very bytes the
+// ban lookup used — and keygen.Service.DecryptKey hands the cipher []byte(key) of its
+// parameter, untransformed. (The decode table, C20.R5, covers the cipher's side.)
+func keyTextRule(c *core.Ctx, rule string) {
+	c.Rule(rule, "the key text is passed unchanged from the request to the cipher: Authorize decrypts string(channel.Key), the value the ban lookup is keyed by; keygen.Service.DecryptKey passes []byte(key) of its parameter to Cipher.DecryptKey without any transformation", 2)
+	if f := fn(c, rule, "internal/service/keygen", "Service", "DecryptKey"); f != nil {
+		calls := eng.Calls(f, false, idCipherDecrypt)
+		ok, why := len(calls) == 1, "expected one Cipher.DecryptKey call"
+		if ok {
+			a := eng.CallArgs(calls[0].Common())[1]
+			cv, isConv := a.(*ssa.Convert)
+			ok = isConv && cv.X == ssa.Value(f.Params[1])
+			why = "the cipher receives " + eng.Describe(a) + " instead of []byte(key)"
+		}
+		c.Check(ok, rule, fnName(f)+":text reaches the cipher unchanged", f.Pos(), "the cipher is given the bytes of the key parameter itself", "keygen.DecryptKey transforms the key text before decrypting ("+why+"): texts that differ from a banned key only by what the transformation removes decrypt to the same key and are not banned")
+	}
+	for _, f := range authorizerImpls(c, rule) {
+		dec, _, _ := resolveDecrypt(f)
+		if dec == nil {
+			continue
+		}
+		args := eng.CallArgs(&dec.Call)
+		a := args[len(args)-1]
+		isChanKey := func(v ssa.Value) bool {
+			// a local holding the text (its address is what the ban lookup is given)
+			if u, ok := v.(*ssa.UnOp); ok && u.Op == token.MUL {
+				if al, ok := u.X.(*ssa.Alloc); ok {
+					n := 0
+					for _, r := range *al.Referrers() {
+						if st, ok := r.(*ssa.Store); ok && st.Addr == ssa.Value(al) {
+							n++
+							v = st.Val
+						}
+					}
+					if n != 1 {
+						return false
+					}
+				}
+			}
+			cv, ok := v.(*ssa.Convert)
+			if !ok {
+				return false
+			}
+			b, isKey := eng.LoadOfField(cv.X, "Key")
+			return isKey && b == ssa.Value(f.Params[1])
+		}
+		c.Check(isChanKey(a), rule, fnName(f)+":decrypts the text the ban lookup saw", dec.Pos(), "DecryptKey is given string(channel.Key)", "Authorize decrypts "+eng.Describe(a)+" rather than string(channel.Key), the text the ban lookup is keyed by")
 	}
 }
